@@ -17,5 +17,9 @@ var harnessOf = map[string]*sim.Harness{
 }
 
 func TestWorker(t *testing.T) {
-	sim.Worker(t, nil, func(prop string) *sim.Harness { return harnessOf[prop] })
+	byName := map[string]*sim.Harness{}
+	for _, h := range []*sim.Harness{HDKV, HBatch, HTimer, HStore, HSSTWAL, HOp, HCluster} {
+		byName[h.Name] = h
+	}
+	sim.Worker(t, byName, func(prop string) *sim.Harness { return harnessOf[prop] })
 }
